@@ -349,7 +349,8 @@ package podgroup_info
 //@   ensures [nonEmptyIffWaiting] len(result.queue.items) > 0 <==> (exists k in subGroup.podInfos :: wantsAlloc(subGroup.podInfos[k], isRealAllocation))
 //@ end
 
-// queue of the active allocated tasks of one pod set (eviction candidates)
+// queue of the active allocated tasks of one pod set (eviction candidates); pod_status.aaClass is the named class
+// "active allocated" exported by the contract of pod_status.IsActiveAllocatedStatus ([named])
 //@ func getTasksToEvictPriorityQueue
 //@   props C03
 //@   requires tasksOK(subGroup)
